@@ -356,6 +356,8 @@ func runLive(r *rec, g *rng, tier, what, replay, out string, extra map[string]in
 		u := mkUniverse(root)
 		check(os.Chdir(root))
 		s := newSession(root, []uint{0, 1, 64}[sg.intn(3)])
+		s.pace = []int{0, 0, 1, 2}[sg.intn(4)]
+		s.paceState = sg.s
 		s.faithful = true
 		s.sentinel = filepath.Join(root, ".sentinel")
 		startSeq := r.seq
